@@ -128,6 +128,17 @@ def family(tier):
                         continue
                     neg, twin = memcase_probe(loader, shape, access, escape)
                     fam.append((f"memcase.{loader}.{shape}.{access}.{escape}", neg, twin))
+    # mutable access to the structure inside a case: exchanging the structures of two cases (the
+    # backends stay) or moving one out would let a structure outlive its memory in safe code
+    for loader in LOADERS:
+        for shape in (["slice", "gen"] if tier == "quick" else list(SHAPES)):
+            T, val, bty, acc = SHAPES[shape]
+            load = LOADERS[loader].format(T=T)
+            setup = f"    let p = path(\"{loader}\");\n    ({val}).store(&p).unwrap();\n"
+            twin = PRELUDE + f"fn main() {{\n{setup}    let a = {load};\n    let b = {load};\n    sink(&*a);\n    drop(b);\n    drop(a);\n}}\n"
+            for how, stmt in [("swap-derefmut", "core::mem::swap(&mut *a, &mut *b);"), ("swap-asmut", "core::mem::swap(AsMut::as_mut(&mut a), AsMut::as_mut(&mut b));")]:
+                neg = PRELUDE + f"fn main() {{\n{setup}    let mut a = {load};\n    let mut b = {load};\n    {stmt}\n    drop(b);\n    sink(&*a);\n}}\n"
+                fam.append((f"memcase.{loader}.{shape}.mutable.{how}", neg, twin))
     for owner in ["vec", "cursor", "encase"]:
         for shape in SHAPES:
             for escape in ["scope", "drop", "move", "mutate", "thread", "return"]:
@@ -161,6 +172,8 @@ def run(tier, ext):
             codes = set(r["errors"])
             if codes & BORROWCK:
                 o = "rejected:" + "+".join(sorted(codes & BORROWCK))
+            elif ".mutable." in pid and codes & {"E0277", "E0599", "E0308"}:
+                o = "rejected:no-mutable-access:" + "+".join(sorted(codes))
             else:
                 return None, None, f"probe {pid} fails for a reason other than borrow checking: {r['stderr'][-600:]}"
         outcomes[o] = outcomes.get(o, 0) + 1
